@@ -563,6 +563,43 @@ func round3Cases(add func(Case), next func() int) {
 		{op: "firstfile", es: []Ent{{N: "d/", K: "dir", M: 0o755}}},
 		{op: "firstfile", pre: "rmsub:out.bin", es: []Ent{{N: "z", K: "file", M: 0o604, C: "third"}}}})
 
+	// entry ORDER within one archive: a directory entry that resolves to the destination itself (ZipDir's own
+	// archives start with "./") and then every hostile name; a memo of "directories already checked" polluted by
+	// the first entry must not let the second through.  Also a benign run of entries before the hostile one.
+	roots := []string{"./", "/", "a/../", ".", "", "./.", "a/b/../../", "//"}
+	for _, op := range []string{"unzip", "untar"} {
+		for ri, root := range roots {
+			for ni, nm := range nameCorpus {
+				e := Ent{N: nm, K: "file", M: 0o644, C: "x-" + nm}
+				if strings.HasSuffix(nm, "/") {
+					e.K, e.M, e.C = "dir", 0o755, ""
+				}
+				es := []Ent{{N: root, K: "dir", M: 0o755}, e}
+				if (ri+ni)%4 == 0 {
+					es = append(es, Ent{N: strings.TrimSuffix(nm, "/") + "/below.txt", K: "file", M: 0o600, C: "below"})
+				}
+				add(Case{Stream: "rootfirst", Op: op, Dest: []string{"%S/dest", "dest"}[(ri+ni)%2], Cwd: []string{"/", "%S"}[(ri+ni)%2],
+					Umask: 0o22, Setup: setups[(ri+ni)%2], Clear: op == "unzip" && ni%5 == 0, Entries: es})
+			}
+		}
+		for _, lead := range [][]Ent{
+			{{N: "d/", K: "dir", M: 0o755}, {N: "d/f", K: "file", M: 0o644, C: "f"}},
+			{{N: "./", K: "dir", M: 0o755}, {N: "d/", K: "dir", M: 0o755}, {N: "d/e/", K: "dir", M: 0o755}},
+			{{N: "d/../", K: "dir", M: 0o755}, {N: "x", K: "file", M: 0o644, C: "x"}},
+		} {
+			for _, tail := range [][]Ent{
+				{{N: "../x", K: "file", M: 0o644, C: "one level up"}},
+				{{N: "../d/", K: "dir", M: 0o755}, {N: "../d/y", K: "file", M: 0o644, C: "in a sibling"}},
+				{{N: "d/../../evil.txt", K: "file", M: 0o600, C: "overwritten"}},
+				{{N: "../outside.txt", K: "file", M: 0o600, C: "overwritten"}},
+				{{N: "../../x", K: "file", M: 0o644, C: "two levels up"}},
+			} {
+				add(Case{Stream: "rootfirst", Op: op, Dest: "%S/dest", Cwd: "/", Umask: 0o22, Setup: setups[1],
+					Entries: append(append([]Ent{}, lead...), tail...)})
+			}
+		}
+	}
+
 	// clear=true for every spelling of the destination, over an absent, a populated and a non-directory destination
 	for _, df := range destForms {
 		for si, su := range [][]Node{setups[0], setups[2], destIsFile} {
